@@ -10,6 +10,9 @@ import Ptn.C05.HeffLoopValue
 import Ptn.C05.ProjectedLinkTwo
 import Ptn.C05.Ctx
 import Ptn.C05.ProjectedTreeAll
+import Ptn.C05.ProjectedTreeLink
+import Ptn.C05.ProjectedTreeTwo
+import Ptn.C05.WholeProgram
 /-! Property theorems for C05.  `Core.lean`: duration totals of the three schedules for arbitrary
 segment lists (per segment edge, under the hypotheses `Nodup` / last-two-adjacent).  `Tree.lean`:
 the same totals for every well-formed tree with the segments computed from the C17 model of the
@@ -27,6 +30,10 @@ has the proved value).  `ProjectedLinkTwo.lean`: `link_heff_is_projected_hamilto
 `two_site_heff_is_projected_hamiltonian`.  `Ctx.lean`, `ProjectedTreeAll.lean`: the parent-direction block
 (`Ctx.ctx_block_is_model`, `Ctx.block_record_is_component_sandwich`), `Ctx.exists_ctx` (every site of every tree is
 the hole of a context) and `site_heff_projected_tree` (`H_eff = E† H E` for EVERY site of every tree).
+`ProjectedTreeLink.lean`, `ProjectedTreeTwo.lean`: `link_heff_projected_tree` (every edge, both sweep orientations),
+`two_site_heff_projected_tree`, `two_site_heff_projected_tree_up` (every adjacent pair, both orders) — no block-record
+hypothesis left.  `WholeProgram.lean`: `Ctx.ctx_block_built`, `site_heff_whole_program` (ONE program from the node tensors
+of the tree to the matrix handed to `time_evolve`, with its value `E† H E`).
 
 Below: non-vacuity examples for the value-level theorems (concrete programs that satisfy every hypothesis). -/
 namespace Ptn.C05.Heff
@@ -457,5 +464,179 @@ example : tsT.nbrs.Nodup ∧ tsX.nbrs.Nodup ∧ 2 ∈ tsT.nbrs ∧ 1 ∈ tsX.nbr
     simp only [tsHeff, tsBlk3, lkBlk0, tsE, tsH, tsB, chKet, chOp, chBra, demoLeaf, Expr.leafProd, Expr.leaves, prodL,
       List.map_cons, List.map_nil, List.cons_append, List.nil_append, mul_one]
     ring
+
+/-! ### `link_heff_projected_tree`: the chain 0 — 1 — 2 (root 0), link on the LOWER edge 1 — 2: the block from 1 is the
+top-down block `contract_any(1, 2)` (it contains the block from 0), the block from 2 is `contract_leaf` -/
+
+def lk2Blk2 : Expr Leg Int :=
+  Expr.dot (Expr.dot (chKet 2 ⟨some 1, []⟩) (chOp 2 ⟨some 1, []⟩) [physIn 2]) (chBra 2 ⟨some 1, []⟩) [physOut 2]
+/-- the program of `_get_effective_link_hamiltonian` on top of the two block programs -/
+def lk2Heff : Expr Leg Int := Expr.dot chBlk1 lk2Blk2 [(Leg.gOp 1 2, Leg.gOp 2 1)]
+/-- the whole ket / bra network with the bond 1 — 2 opened -/
+def lk2E : Expr Leg Int := Expr.dot chE (chKet 2 ⟨some 1, []⟩) []
+def lk2B : Expr Leg Int := Expr.dot chB (chBra 2 ⟨some 1, []⟩) []
+def lk2Cache : Dict := fun k =>
+  if k = (1, 2) then some (gBlock 1 2 chCtx.blockBinds)
+  else if k = (2, 1) then some (soBlock (Tree.node 2 []) 1) else none
+
+theorem lk2Blk2_swf : lk2Blk2.SWF := by
+  refine ⟨⟨demoLeaf_swf _ ?_, demoLeaf_swf _ ?_, ?_, ?_, ?_, ?_⟩, demoLeaf_swf _ ?_, ?_, ?_, ?_, ?_⟩ <;> decide
+
+/-- `Ctx.exists_ctx_edge`: the edge 1 — 2 of the chain is the edge into the hole of a frame -/
+example : ∃ (ls rs : List Tree) (up : Ctx) (ks : List Tree),
+    Tree.node 0 [Tree.node 1 [Tree.node 2 []]] = (Ctx.frame 1 ls rs up).plug (Tree.node 2 ks) :=
+  Ctx.exists_ctx_edge _ 1 2 (by decide)
+
+/-- every hypothesis of `link_heff_projected_tree` (`c = chCtx`, `p = 1`, `t = node 2 []`), all dimensions 2 -/
+example : chCtx.parent = some 1 ∧ (chCtx.plug (Tree.node 2 [])).ids.Nodup ∧
+    lk2Cache (1, (Tree.node 2 []).id) = some (gBlock 1 (Tree.node 2 []).id chCtx.blockBinds) ∧
+    lk2Cache ((Tree.node 2 []).id, 1) = some (soBlock (Tree.node 2 []) 1) ∧
+    lk2Heff.SWF ∧ lk2E.WF ∧ chH.WF ∧ lk2B.WF ∧
+    (∀ l ∈ lk2E.labels, l ∉ chH.labels) ∧ (∀ l ∈ lk2E.labels, l ∉ lk2B.labels) ∧
+    (∀ l ∈ chH.labels, l ∉ lk2B.labels) ∧
+    lk2Heff.binds.Perm (chCtx.blockBinds ++ soBlockBinds (Tree.node 2 []) ++ [(Leg.gOp 1 2, Leg.gOp 2 1)]) ∧
+    (unordL lk2E.binds).Perm
+      (unordL ((chCtx.compEdges ++ (Tree.node 2 []).edges).map fun e => ketEdge e.1 e.2)) ∧
+    (unordL chH.binds).Perm (unordL ((chCtx.plug (Tree.node 2 [])).edges.map fun e => opEdge e.1 e.2)) ∧
+    (unordL lk2B.binds).Perm
+      (unordL ((chCtx.compEdges ++ (Tree.node 2 []).edges).map fun e => braEdge e.1 e.2)) ∧
+    (∀ n ∈ chCtx.ids ++ (Tree.node 2 []).ids, Leg.gKetPhys n ∈ lk2E.free ∧ Leg.gOpIn n ∈ chH.free ∧
+      Leg.gOpOut n ∈ chH.free ∧ Leg.gBraPhys n ∈ lk2B.free) ∧
+    (∀ σ, lk2Heff.leafProd σ = lk2E.leafProd σ * chH.leafProd σ * lk2B.leafProd σ) := by
+  have hW : chW2.SWF := demoLeaf_swf _ (by decide)
+  have hE0 : chE.SWF := ⟨demoLeaf_swf _ (by decide), demoLeaf_swf _ (by decide), by decide, by decide, by decide,
+    by decide⟩
+  have hB0 : chB.SWF := ⟨demoLeaf_swf _ (by decide), demoLeaf_swf _ (by decide), by decide, by decide, by decide,
+    by decide⟩
+  have hE : lk2E.SWF := ⟨hE0, demoLeaf_swf _ (by decide), by decide, by decide, by decide, by decide⟩
+  have hB : lk2B.SWF := ⟨hB0, demoLeaf_swf _ (by decide), by decide, by decide, by decide, by decide⟩
+  have hH : chH.SWF := ⟨⟨demoLeaf_swf _ (by decide), demoLeaf_swf _ (by decide), by decide, by decide, by decide,
+    by decide⟩, hW, by decide, by decide, by decide, by decide⟩
+  have he : lk2Heff.SWF := ⟨chBlk1_swf, lk2Blk2_swf, by decide, by decide, by decide, by decide⟩
+  refine ⟨rfl, by decide, by decide, by decide, he, hE.wf, hH.wf, hB.wf, by decide, by decide, by decide, by decide,
+    by decide, by decide, by decide, by decide, ?_⟩
+  intro σ
+  simp only [lk2Heff, lk2Blk2, lk2E, lk2B, chBlk1, chBlk0, lkBlk0, chW2, chE, chH, chB, chKet, chOp, chBra, demoLeaf,
+    Expr.leafProd, Expr.leaves, prodL, List.map_cons, List.map_nil, List.cons_append, List.nil_append, mul_one]
+  ring
+
+/-! ### `two_site_heff_projected_tree` / `two_site_heff_projected_tree_up`: the chain 0 — 1 — 2 — 3, pair 1 — 2
+(`up = frame 0 [] [] root`, `a = 1`, `b = 2`, `ks = [node 3 []]`); the programs `tsHeff`, `tsE`, `tsH`, `tsB` above -/
+
+def tsUp : Ctx := .frame 0 [] [] .root
+def tsCache : Dict := fun k =>
+  if k = (0, 1) then some (gBlock 0 1 tsUp.blockBinds) else soKidBlock [Tree.node 3 []] 2 k
+
+/-- the model's answers for both orders of the pair -/
+example : getEffectiveTwoSiteHamiltonian ⟨tsUp.parent, [2]⟩ ⟨some 1, [3]⟩ ⟨some 0, [3]⟩ (gOpT 1 ⟨tsUp.parent, [2]⟩)
+      (gOpT 2 ⟨some 1, [3]⟩) 1 2 tsCache =
+      some ⟨[.gBra 0 1, .gBra 3 2, .gOpOut 1, .gOpOut 2], [.gKet 0 1, .gKet 3 2, .gOpIn 1, .gOpIn 2],
+        [physIn 0, physOut 0, (.gOp 1 0, .gOp 0 1), physOut 3, physIn 3, (.gOp 2 3, .gOp 3 2), (.gOp 1 2, .gOp 2 1)]⟩ ∧
+    getEffectiveTwoSiteHamiltonian ⟨some 1, [3]⟩ ⟨tsUp.parent, [2]⟩ ⟨some 0, [3]⟩ (gOpT 2 ⟨some 1, [3]⟩)
+      (gOpT 1 ⟨tsUp.parent, [2]⟩) 2 1 tsCache =
+      some ⟨[.gBra 0 1, .gBra 3 2, .gOpOut 2, .gOpOut 1], [.gKet 0 1, .gKet 3 2, .gOpIn 2, .gOpIn 1],
+        [physOut 3, physIn 3, (.gOp 2 3, .gOp 3 2), physIn 0, physOut 0, (.gOp 1 0, .gOp 0 1), (.gOp 2 1, .gOp 1 2)]⟩ := by
+  decide
+
+/-- every hypothesis of `two_site_heff_projected_tree` (and of `…_up`: the same list), all dimensions 2 -/
+example : ((Ctx.frame 1 [] [] tsUp).plug (Tree.node 2 [Tree.node 3 []])).ids.Nodup ∧
+    ([2] : List Nat).Perm (([] : List Tree).map Tree.id ++ 2 :: ([] : List Tree).map Tree.id) ∧
+    ([3] : List Nat).Perm ([Tree.node 3 []].map Tree.id) ∧
+    (Node.mk (some 0) [3]).nbrs.Perm (tsUp.parent.toList ++ ((([] : List Tree) ++ []) ++ [Tree.node 3 []]).map Tree.id) ∧
+    (∀ q, tsUp.parent = some q → tsCache (q, 1) = some (gBlock q 1 tsUp.blockBinds)) ∧
+    (∀ n ∈ (([] : List Tree) ++ []).map Tree.id, tsCache (n, 1) = soKidBlock ([] ++ []) 1 (n, 1)) ∧
+    (∀ n ∈ [Tree.node 3 []].map Tree.id, tsCache (n, 2) = soKidBlock [Tree.node 3 []] 2 (n, 2)) ∧
+    tsHeff.SWF ∧ tsE.WF ∧ tsH.WF ∧ tsB.WF ∧
+    (∀ l ∈ tsE.labels, l ∉ tsH.labels) ∧ (∀ l ∈ tsE.labels, l ∉ tsB.labels) ∧ (∀ l ∈ tsH.labels, l ∉ tsB.labels) ∧
+    tsHeff.binds.Perm [physIn 0, physOut 0, (.gOp 1 0, .gOp 0 1), physOut 3, physIn 3, (.gOp 2 3, .gOp 3 2),
+      (.gOp 1 2, .gOp 2 1)] ∧
+    (unordL tsE.binds).Perm (unordL ((tsUp.compEdges ++ ((([] : List Tree) ++ []) ++ [Tree.node 3 []]).flatMap
+      Tree.edges).map fun e => ketEdge e.1 e.2)) ∧
+    (unordL tsH.binds).Perm (unordL (((Ctx.frame 1 [] [] tsUp).plug (Tree.node 2 [Tree.node 3 []])).edges.map
+      fun e => opEdge e.1 e.2)) ∧
+    (unordL tsB.binds).Perm (unordL ((tsUp.compEdges ++ ((([] : List Tree) ++ []) ++ [Tree.node 3 []]).flatMap
+      Tree.edges).map fun e => braEdge e.1 e.2)) ∧
+    (∀ n ∈ tsUp.ids ++ Tree.idsL ((([] : List Tree) ++ []) ++ [Tree.node 3 []]), Leg.gKetPhys n ∈ tsE.free ∧
+      Leg.gOpIn n ∈ tsH.free ∧ Leg.gOpOut n ∈ tsH.free ∧ Leg.gBraPhys n ∈ tsB.free) := by
+  have hE : tsE.SWF := ⟨demoLeaf_swf _ (by decide), demoLeaf_swf _ (by decide), by decide, by decide, by decide,
+    by decide⟩
+  have hB : tsB.SWF := ⟨demoLeaf_swf _ (by decide), demoLeaf_swf _ (by decide), by decide, by decide, by decide,
+    by decide⟩
+  have hH : tsH.SWF := ⟨⟨⟨demoLeaf_swf _ (by decide), demoLeaf_swf _ (by decide), by decide, by decide, by decide,
+    by decide⟩, demoLeaf_swf _ (by decide), by decide, by decide, by decide, by decide⟩, demoLeaf_swf _ (by decide),
+    by decide, by decide, by decide, by decide⟩
+  have he : tsHeff.SWF := ⟨⟨demoLeaf_swf _ (by decide), lkBlk0_swf, by decide, by decide, by decide, by decide⟩,
+    ⟨demoLeaf_swf _ (by decide), tsBlk3_swf, by decide, by decide, by decide, by decide⟩, by decide, by decide,
+    by decide, by decide⟩
+  refine ⟨by decide, by decide, by decide, by decide, ?_, by simp, ?_, he, hE.wf, hH.wf, hB.wf, by decide, by decide,
+    by decide, by decide, by decide, by decide, by decide, by decide⟩
+  · intro q hq
+    have : q = 0 := by simpa [tsUp, Ctx.parent] using hq.symm
+    subst this
+    rfl
+  · intro n hn
+    have : n = 3 := by simpa [Tree.id] using hn
+    subst this
+    rfl
+
+/-! ### `site_heff_whole_program` (with `Ctx.ctx_block_built`, `soBlock_built_free`): the chain 0 — 1 — 2, site 2;
+the node tensors are `demoT` of their own legs, the operator nodes use the state's child orders -/
+
+def chNode (n : Nat) : Node := if n = 0 then ⟨none, [1]⟩ else if n = 1 then ⟨some 0, [2]⟩ else ⟨some 1, []⟩
+def chOpKids (n : Nat) : List Nat := (chNode n).children
+def chKv (n : Nat) : Asg Leg → Int := demoT (gKetT n (chNode n)).legs
+def chOv (n : Nat) : Asg Leg → Int := demoT (gOpT n (chNode n)).legs
+def chBv (n : Nat) : Asg Leg → Int := demoT (gBraT n (chNode n)).legs
+
+theorem chInfo (e : Nat × Option Nat × List Nat) (he : e ∈ Tree.info none (chCtx.plug (Tree.node 2 []))) :
+    e = (0, none, [1]) ∨ e = (1, some 0, [2]) ∨ e = (2, some 1, []) := by
+  simpa [chCtx, Ctx.plug, Tree.info, Tree.infoL, Tree.id] using he
+
+/-- every hypothesis of `site_heff_whole_program` for the leaf 2 of the chain (the theorem then provides the built
+program itself), and a split `chE`, `chH`, `chB` of its leaves with the hypotheses of the value clause -/
+example : (chCtx.plug (Tree.node 2 [])).ids.Nodup ∧
+    (∀ e ∈ Tree.info none (chCtx.plug (Tree.node 2 [])), (chOpKids e.1).Perm e.2.2) ∧
+    KetLocal chKv (chCtx.plug (Tree.node 2 [])) ∧ OpLocalK chOv chOpKids (chCtx.plug (Tree.node 2 [])) ∧
+    BraLocalK chBv (chCtx.plug (Tree.node 2 [])) ∧
+    chE.WF ∧ chH.WF ∧ chB.WF ∧
+    (chE.leaves ++ (chH.leaves ++ chB.leaves)).Perm (wholeLeaves chOpKids chKv chOv chBv chCtx 2 []) ∧
+    (unordL chE.binds).Perm
+      (unordL ((chCtx.compEdges ++ ([] : List Tree).flatMap Tree.edges).map fun e => ketEdge e.1 e.2)) ∧
+    (unordL chH.binds).Perm (unordL ((chCtx.plug (Tree.node 2 [])).edges.map fun e => opEdge e.1 e.2)) ∧
+    (unordL chB.binds).Perm
+      (unordL ((chCtx.compEdges ++ ([] : List Tree).flatMap Tree.edges).map fun e => braEdge e.1 e.2)) ∧
+    (∀ n ∈ chCtx.ids ++ Tree.idsL [], Leg.gKetPhys n ∈ chE.free ∧ Leg.gOpIn n ∈ chH.free ∧
+      Leg.gOpOut n ∈ chH.free ∧ Leg.gBraPhys n ∈ chB.free) := by
+  have hW : chW2.SWF := demoLeaf_swf _ (by decide)
+  have hE : chE.SWF := ⟨demoLeaf_swf _ (by decide), demoLeaf_swf _ (by decide), by decide, by decide, by decide,
+    by decide⟩
+  have hB : chB.SWF := ⟨demoLeaf_swf _ (by decide), demoLeaf_swf _ (by decide), by decide, by decide, by decide,
+    by decide⟩
+  have hH : chH.SWF := ⟨⟨demoLeaf_swf _ (by decide), demoLeaf_swf _ (by decide), by decide, by decide, by decide,
+    by decide⟩, hW, by decide, by decide, by decide, by decide⟩
+  refine ⟨by decide, ?_, ?_, ?_, ?_, hE.wf, hH.wf, hB.wf, ?_, by decide, by decide, by decide, by decide⟩
+  · intro e he
+    rcases chInfo e he with rfl | rfl | rfl <;> decide
+  · intro e he
+    rcases chInfo e he with rfl | rfl | rfl <;> exact demoT_local _
+  · intro e he
+    rcases chInfo e he with rfl | rfl | rfl <;> exact demoT_local _
+  · intro e he
+    rcases chInfo e he with rfl | rfl | rfl <;> exact demoT_local _
+  · have h1 : chE.leaves ++ (chH.leaves ++ chB.leaves) =
+        [((gKetT 0 (chNode 0)).legs, chKv 0), ((gKetT 1 (chNode 1)).legs, chKv 1),
+         ((gOpT 0 (chNode 0)).legs, chOv 0), ((gOpT 1 (chNode 1)).legs, chOv 1), ((gOpT 2 (chNode 2)).legs, chOv 2),
+         ((gBraT 0 (chNode 0)).legs, chBv 0), ((gBraT 1 (chNode 1)).legs, chBv 1)] := rfl
+    have h2 : wholeLeaves chOpKids chKv chOv chBv chCtx 2 [] =
+        [((gOpT 2 (chNode 2)).legs, chOv 2),
+         ((gKetT 1 (chNode 1)).legs, chKv 1), ((gOpT 1 (chNode 1)).legs, chOv 1), ((gBraT 1 (chNode 1)).legs, chBv 1),
+         ((gKetT 0 (chNode 0)).legs, chKv 0), ((gOpT 0 (chNode 0)).legs, chOv 0),
+         ((gBraT 0 (chNode 0)).legs, chBv 0)] := rfl
+    rw [h1, h2]
+    classical
+    rw [List.perm_iff_count]
+    intro z
+    simp only [List.count_cons, List.count_nil]
+    omega
 
 end Ptn.C05.Heff
